@@ -68,7 +68,7 @@ def select_triples(tier: str, seed: int) -> List[Dict[str, Any]]:
                 order.append(by_grammar[g].pop())
     for i, tpl in enumerate(order):
         s = dict(cc.DEFAULT_SETTINGS) if i % 3 == 0 else grid[rng.randrange(len(grid))]
-        case = cc.make_case(tpl, s, timeout_seconds=40 if tier == "quick" else 60)
+        case = cc.make_case(tpl, s, timeout_seconds=30 if tier == "quick" else 60)
         triples.append(dict(case=case, hashseed=HASHSEEDS[i % len(HASHSEEDS)],
                             seed_a=rng.randrange(1, 10 ** 6), seed_c=rng.randrange(10 ** 6, 2 * 10 ** 6)))
     return triples
@@ -268,7 +268,7 @@ def run(rep, tier: str, seed: int) -> None:
     rep.bound(("24" if tier == "quick" else "120") + " triples from the satisfiable templates of bounded.c01_cases "
               "(every grammar except `wide`; every third triple with default settings, the others with a seed-drawn "
               "grid point); PYTHONHASHSEED in {0,1,42,123456}; 8 results per run; solver timeout_seconds="
-              + ("40" if tier == "quick" else "60") + "; child hard limit 150 s")
+              + ("30" if tier == "quick" else "60") + "; child hard limit 150 s")
     rep.assume("a triple in which any run hits TimeoutError or the hard limit is inconclusive (timing dependent by "
                "design of the timeout)")
     rep.assume("ISLa gives every Z3 query a wall-clock timeout (z3_helpers.z3_solve: 500 ms, then shuffles the "
